@@ -116,7 +116,7 @@ def inputs(ctx):
             rows = [[f"r{i}{j}" for j in range(n)] for i in range(m)]
             yield "shapes", {"kind": "cobol", "numbers": [],
                              "tables": [{"name": "Sheet1", "header": header, "rows": rows, "widths": widths}]}
-    n_plain, n_cobol, n_num = (40, 40, 16) if quick else (400, 400, 120)
+    n_plain, n_cobol, n_num = (40, 40, 16) if quick else (300, 300, 100)
     for i in range(n_plain):
         yield "plain", _workbook(rng, "plain", i < n_num // 2)
     for i in range(n_cobol):
